@@ -638,8 +638,8 @@ def logging_cases(chk):
     if chk.tier == "quick":
         cheap = [c for c in full if plots(c) == 0]
         costly = [c for c in full if plots(c) > 0]
-        # (30 + 4 since the variants below take their share of the quick budget; the thorough tier samples 380)
-        sel = rng.sample(cheap, 30) + rng.sample(costly, 4)
+        # (14 + 2 since the variants below take their share of the quick budget; the thorough tier samples 380)
+        sel = rng.sample(cheap, 14) + rng.sample(costly, 2)
         sel = [dict(c, win=3) if i % 3 == 0 else c for i, c in enumerate(sel)]
     else:
         cheap = [c for c in full if plots(c) == 0]
@@ -946,6 +946,10 @@ def part_b(chk, E, tmp, book=None):
     # a documented option of every model: initial parameters drawn at random (the seed of the run must cover them, F32)
     subjects.append((f"fit logistic random-initialization seed={seed}",
                      fit_thunk("logistic", multi, seed, dimension=3, source_dimension=2, initialization_method="random"), seed))
+    # every model kind has its own data-derived initialisation (run by `fit` on a fresh model, before the algorithm seeds the
+    # generators): a fresh mixture model and a fresh joint model must be as reproducible as the others
+    subjects.append((f"fit mixture (fresh model) seed={seed}",
+                     fit_thunk("mixture_logistic", multi, seed, dimension=3, source_dimension=2, n_clusters=2, obs_models="gaussian-diagonal"), seed))
     # the same fit through the other public entry points, each with ONE object made now and used by every later run: an
     # AlgorithmSettings object, an algorithm object (algorithm_factory), a settings file, a Dataset; the result must be the one of
     # the keyword entry point (`same_as`)
@@ -1075,7 +1079,7 @@ def part_b(chk, E, tmp, book=None):
             hists = rng.sample(HISTORIES, 5)        # (entry points / forms of the seed: five of the eleven histories)
         elif name.startswith(("fit logistic random", "simulate seed=0")):
             hists = HISTORIES[:8]                   # (quick tier: the three histories added last go to one fit and one simulation)
-        elif name in same_as or "[" in name or name.startswith("simulate"):
+        elif name in same_as or "[" in name or name.startswith("simulate") or name.startswith("fit mixture"):
             hists = rng.sample(HISTORIES, 2)       # (entry points / forms added later: a sample; every history over the seeds)
         else:
             hists = rng.sample(HISTORIES, 4)
